@@ -3,14 +3,18 @@ SPEC = dict(
     title='External interference with a fan is undone within one control cycle',
     props_file='Props/C05.v', props_mod='Props.C05',
     props_extra=[('Props/C05Link.v', 'Props.C05Link')],
-    proof_files=['Proofs/Rescale.v', 'Proofs/Ctrl.v', 'Proofs/CtrlC05.v', 'Drv/CtrlC05.v'],
+    proof_files=['Proofs/Rescale.v', 'Proofs/Ctrl.v', 'Proofs/CtrlC05.v', 'Drv/CtrlC05.v', 'Drv/StartupC05.v'],
     tie_vo=['Proofs/LeafTie.vo', 'Proofs/ConstsTie_basic.vo', 'Proofs/ConstsTie_clamp.vo', 'Proofs/ConstsTie_stall.vo', 'Proofs/LeafTie2_calcTarget.vo', 'Proofs/LeafTie2_DirectCycle.vo', 'Proofs/LeafTie2_PidCycle.vo', 'Proofs/LeafTie2_applyPwmMapping.vo', 'Proofs/LeafTie2_HwMonGetMinPwm.vo', 'Proofs/LeafTie2_HwMonGetMaxPwm.vo', 'Proofs/LeafTie2_HwMonGetRpmAvg.vo', 'Proofs/LeafTie2_HwMonSetRpmAvg.vo', 'Proofs/LeafTie2_HwMonShouldNeverStop.vo'],
     drivers=[dict(name='ctrl', drv_mod='Drv.CtrlC05', drv_file='Drv/CtrlC05.v', shard=100,
-                  args={'quick': ['n=600'], 'thorough': ['n=4000']}, timeout={'quick': 900, 'thorough': 6000})],
+                  args={'quick': ['n=600'], 'thorough': ['n=4000']}, timeout={'quick': 900, 'thorough': 6000}),
+             # the start-up driver of C15 as a second driver: the first control cycles after every kind of start
+             dict(name='startup', drv_mod='Drv.StartupC05', drv_file='Drv/StartupC05.v', shard=30,
+                  args={'quick': ['n=30', 'nc=4', 'ncli=4'], 'thorough': ['n=1500', 'nc=80', 'ncli=40']},
+                  timeout={'quick': 600, 'thorough': 3000})],
     rule='seeded histories of 1..40 control cycles with interleaved RPM polls, external interference and device faults on real '
          'HwMonFan/FileFan/CmdFan objects driven through the real UpdateFanSpeed/measureRpm; generators random/stall/const/ext/fault; '
          'PWM maps identity/quantiser/sparse/monotone-sparse/plateau; algorithms direct, rate-limited, PID (default and random gains); '
-         'curve values -500..800; dt 0, 1 ns, 50 ms..2 s, hours. Non-trivial = at least two control cycles; distinct = distinct case terms.',
+         'curve values -500..800; dt 0, 1 ns, 50 ms..2 s, hours. Non-trivial = at least two control cycles; distinct = distinct case terms. Second driver `startup` (the start-up driver of C15, observer Drv/StartupC05.v): every start it performs - first start with PWM sweep and RPM-curve measurement through the real Run, restart, start after fan init / fan reset, configured pwmMap / minPwm+maxPwm, hwmon / file / cmd fans, concurrent starts on one database, CLI-driven histories - is followed by three real control cycles (ticker-driven UpdateFanSpeed); nothing but the controller writes the fan files and every write succeeds, so GetStatistics().UnexpectedPwmValueCount must be 0 after them.',
     assumptions=['PWM map non-empty with strictly increasing keys (pm_ok); 0 <= min <= max <= 255', 'outputs of the PWM map are never -1'],
     trusted_base=['Print Assumptions: FloatAxioms.Leibniz.eqb_spec (stdlib axiom, used to lift the computed exactness of float64(max)-float64(min) on 0..255) and the kernel float/int63 primitives; no other axiom', 'hand-written model Model/Controller.v of calculateTargetPwm / ensureNoThirdPartyIsMessingWithUs / trySetManualPwm / setPwm / measureRpm, Model/Fan.v, Model/ControlLoop.v: agreement with the Go code is observed bit-exactly on the generated histories (driver ctrl), not proved', 'one control cycle is atomic in the model; interference during a cycle is represented by interference just before or just after it', 'the curve is a stub SpeedCurve in the driver (real curves: C06/C07); the PID clock is virtual (overlay rewrite of time.Now in util/pid.go)', 'gen/Consts.v regenerated from the source: clamp bounds, rescale divisor, stall threshold, post-raise average'],
     finding_codes={}, finding_text={},
